@@ -1455,9 +1455,11 @@ class ValueCounts(ReductionConstantDim):
         else:
             return func(_concat(inputs), **kwargs)
 
-    @property
-    def split_by(self):
-        return self.frame._meta.name
+    # The chunks are Series indexed by the counted values, so the shuffle has
+    # to partition on that index.  Deriving a label from the series name breaks
+    # down when the name is missing, falsy or equal to the counts' own label.
+    split_by = None
+    shuffle_by_index = True
 
     @property
     def chunk_kwargs(self):
@@ -1480,10 +1482,6 @@ class ValueCounts(ReductionConstantDim):
     def _simplify_up(self, parent, dependents):
         # We are already a Series
         return
-
-    @functools.cached_property
-    def split_by(self):
-        return self.frame._meta.name
 
     def _divisions(self):
         if self.sort:
